@@ -158,7 +158,9 @@ func (propC01) Gen(seed uint64, tier string, idx int) *Plan {
 				op.Body.Tools, op.Body.ToolVariety = r.Pick(4), true
 			}
 		} else {
-			op.Method = pickS(r, []string{"POST", "POST", "POST", "PUT", "PATCH", "DELETE", "GET"})
+			// (every method a client can write, CONNECT and OPTIONS with a body included: the route table matches on
+			// the path alone)
+			op.Method = pickS(r, []string{"POST", "POST", "POST", "PUT", "PATCH", "DELETE", "GET", "POST", "POST", "CONNECT", "OPTIONS"})
 			switch {
 			case op.Method == "GET" || size == 0:
 				op.Body = BodySpec{Kind: "none"}
